@@ -21,6 +21,17 @@ from kawin.precipitation.parameters.ElasticFactors import (
     rotateRank2Tensor, rotateRank4Tensor, elasticConstantToC, moduliToC, StrainEnergy, StrainEnergyParameters,
     SphericalEnergyDescription, EllipsoidalEnergyDescription, ConstantEnergyDescription)
 
+
+def _f_fill_diagonal(a, val, wrap=False):
+    """np.fill_diagonal on an object array: numpy's own flat-stride assignment works on any dtype (in place, returns None)"""
+    import numpy as _rnp
+    from vk import symnp
+    _rnp.fill_diagonal(symnp.plain(a), symnp.plain(symnp.to_obj(val)) if isinstance(val, (_rnp.ndarray, list, tuple)) else val, wrap)
+
+
+from vk import symnp as _symnp
+_symnp.FUNCS.setdefault("fill_diagonal", _f_fill_diagonal)
+
 R3 = range(3)
 IDX4 = list(itertools.product(R3, R3, R3, R3))
 VOIGT = [(0, 0), (1, 1), (2, 2), (1, 2), (0, 2), (0, 1)]
@@ -337,6 +348,40 @@ def iso_sphere(ctx, via="constants", eig="scalar"):
     ctx.prove("first entry equals the single-radius result", ctx.eq(u2[0], u))
 
 
+# ------------------------------------------------------------------------------------------------ objects do not share state
+
+def instances_independent(ctx, form="scalar"):
+    """StrainEnergy objects are independent: configuring a second object does not change the first one's energy, a scalar
+    eigenstrain replaces an earlier full tensor completely, and an object that never received an eigenstrain has none
+    (eigenstrains concrete, isotropic sphere: closed form 2G(1+nu)/(1-nu) eps^2 V per object)"""
+    G = ctx.real("G", (0.5, 2.0)); nu = ctx.real("nu", (0.05, 0.45)); R = ctx.real("R", (0.5, 2.0))
+    ctx.assume(G > 0); ctx.assume(nu > -1); ctx.assume(2 * nu < 1); ctx.assume(R > 0)
+    lam = 2 * G * nu / (1 - 2 * nu)
+    eA, eB = 0.01, 0.02
+    mk = lambda e: e if form == "scalar" else [e, e, e]
+    a = StrainEnergy(); a.setElasticConstants(lam + 2 * G, lam, G); a.setEigenstrain(mk(eA))
+    b = StrainEnergy(); b.setElasticConstants(lam + 2 * G, lam, G); b.setEigenstrain(mk(eB))
+    c = StrainEnergy(); c.setElasticConstants(lam + 2 * G, lam, G)
+    c.setEigenstrain([[0.01, 0.003, 0.001], [0.003, 0.01, 0.002], [0.001, 0.002, 0.02]])
+    c.setEigenstrain(mk(eA))
+    fresh = StrainEnergy()
+    rr = [R, R, R]
+    ua, ub, uc = a.compute(rr) * 1, b.compute(rr) * 1, c.compute(rr) * 1
+    ctx.observe("ua", ua); ctx.observe("ub", ub)
+    V = 4 * np.pi / 3 * R ** 3
+    closed = lambda e: 2 * G * (1 + nu) / (1 - nu) * e ** 2 * V
+    ctx.prove("energy of object A equals the closed form with ITS eigenstrain after object B was configured", ctx.eq(ua, closed(eA)))
+    ctx.prove("energy of object B equals the closed form with its eigenstrain", ctx.eq(ub, closed(eB)))
+    ctx.prove("E_B / E_A = 4", ctx.eq(ub, 4 * ua))
+    ea, eb, ec, ef = (np.array(x.params.eigenstrain) for x in (a, b, c, fresh))
+    ctx.prove("stored eigenstrain of A is eps_A * identity", all(float(ea[i, j]) == (eA if i == j else 0.0) for i in R3 for j in R3))
+    ctx.prove("stored eigenstrain of B is eps_B * identity", all(float(eb[i, j]) == (eB if i == j else 0.0) for i in R3 for j in R3))
+    ctx.prove("scalar eigenstrain after a full tensor leaves no off-diagonal component", all(float(ec[i, j]) == (eA if i == j else 0.0) for i in R3 for j in R3))
+    ctx.prove("energy after tensor-then-scalar equals the scalar one", ctx.eq(uc, closed(eA)))
+    ctx.prove("an object that never received an eigenstrain has zero eigenstrain", all(float(ef[i, j]) == 0.0 for i in R3 for j in R3))
+    ctx.prove("objects do not share their parameter record", a.params is not b.params and a.params.eigenstrain is not b.params.eigenstrain)
+
+
 # ------------------------------------------------------------------------------------------------ rotations and setter order
 
 def _rot_ref(R, c4):
@@ -478,6 +523,16 @@ def _exact_inv(a):
     return _block_inv(_simplified(a))
 
 
+def _fixed_D():
+    """a concrete D with the same mirror-symmetry pattern (dyadic sample values): used where the solver has to FIND a
+    counterexample, which it cannot do within the time limit with 21 more unknowns"""
+    D = np.zeros((3, 3, 3, 3))
+    for (i, j, k, l) in IDX4:
+        if all((i, j, k, l).count(v) % 2 == 0 for v in R3):
+            D[i, j, k, l] = ((7 * i + 5 * j + 3 * k + 2 * l) % 9 - 4.5) / 8.0
+    return D
+
+
 def _ortho_D(ctx, name="D"):
     """opaque D_ijkl with the mirror-symmetry pattern of an axis-aligned ellipsoid in an axis-aligned cubic/orthotropic
     matrix: entries in which some index value occurs an odd number of times vanish (21 free entries)"""
@@ -489,6 +544,9 @@ def _ortho_D(ctx, name="D"):
 
 
 def _eig(ctx, kind, name="e"):
+    if kind == "fixed":
+        v = [0.015625, -0.03125, 0.046875]
+        return v, lambda t: [t * x for x in v]
     if kind == "diag":
         v = ctx.reals(name, 3, (-0.05, 0.05))
         return [v[0], v[1], v[2]], lambda t: [t * v[0], t * v[1], t * v[2]]
@@ -508,7 +566,7 @@ def _energy_core(ctx, prec, eig, dpat, claims, rot):
         ctx.assume(r[i] > 0)
     ctx.assume(s > 0)
     e1, escaled = _eig(ctx, eig)
-    D = _ortho_D(ctx) if dpat == "ortho" else ctx.reals("D", (3, 3, 3, 3), (-1.0, 1.0))
+    D = _ortho_D(ctx) if dpat == "ortho" else _fixed_D() if dpat == "fixed" else ctx.reals("D", (3, 3, 3, 3), (-1.0, 1.0))
     se = StrainEnergy()
     se.setEllipsoidal()
     if rot:
@@ -595,12 +653,15 @@ def _energy_core(ctx, prec, eig, dpat, claims, rot):
         ctx.prove("bohm(6x6) reduces to the homogeneous-inclusion energy", ctx.eq(base["bohm(6x6)"], base["ellipsoid(6x6)"]))
 
 
-def energy_form(ctx, prec="same", claims=ALL_CLAIMS, general=False):
+def energy_form(ctx, prec="same", claims=ALL_CLAIMS, general=False, fixed=False):
     """real strainEnergyEllipsoid / Ellipsoid2ndRank / Bohm / Bohm2ndRank and Sijmn on an opaque D (the quadrature result),
     aligned cubic crystal(s), eigenstrain diagonal in the crystal axes: energy is quadratic in the eigenstrain, proportional
     to the volume (cube of a uniform scaling), the 6x6 and 4th-rank formulations agree, and Bohm's formula reduces to the
     homogeneous-inclusion result when both stiffnesses coincide"""
-    if general:
+    if fixed:
+        # same clauses on one concrete D and eigenstrain, stiffnesses symbolic (6 unknowns): a cheap search space for counterexamples
+        _energy_core(ctx, prec, "fixed", "fixed", tuple(claims), False)
+    elif general:
         # the 4th-rank homogeneous formulation against the textbook for any symmetric eigenstrain, any D, matrix rotated about z
         _energy_core(ctx, prec, "full", "free", ("textbook",), True)
     else:
@@ -761,6 +822,9 @@ HARNESSES = [
             stubs=["np.linalg.inv(6x6) in moduliToC: exact inverse of the block-diagonal compliance"],
             params={"quick": [{"via": "constants", "eig": "scalar"}, {"via": "moduli", "eig": "vector"}, {"via": "tensor", "eig": "matrix"}],
                     "thorough": [{"via": v, "eig": e} for v in ("constants", "moduli", "tensor") for e in ("scalar", "vector", "matrix")]}),
+    Harness("C16.instances_independent", instances_independent, functions=_F_SE + [SphericalEnergyDescription._Khachaturyan],
+            assumptions=["G > 0, -1 < nu < 1/2, R > 0 symbolic; eigenstrains concrete (0.01, 0.02, and a full tensor followed by 0.01)"],
+            params={"quick": [{"form": "scalar"}, {"form": "vector"}], "thorough": [{"form": "scalar"}, {"form": "vector"}]}),
     Harness("C16.setter_order", setter_order, functions=_F_SE + [elasticConstantToC], opts={"ob_timeout": 30.0, "name_threshold": 10 ** 6},
             assumptions=["R arbitrary real 3x3 (orthogonality not needed for this clause); cubic stiffness c11, c44 > 0"],
             params={"quick": [{"target": "matrix"}, {"target": "prec"}, {"target": "matrix", "shape": "ellipsoid"}],
@@ -775,8 +839,10 @@ HARNESSES = [
             stubs=["EllipsoidalEnergyDescription.Dijkl: returns the opaque D", "np.linalg.inv(6x6): exact inverse (block diagonal after simplification)"],
             params={"quick": [{"prec": "same", "claims": ["textbook"]}, {"prec": "same", "general": True}, {"prec": "same", "claims": ["compute", "volume", "rank_ell", "rank_bohm"]}, {"prec": "same", "claims": ["quadratic"]}, {"prec": "same", "claims": ["homog4", "homog6"]},
                               {"prec": "equal", "claims": ["homog4", "homog6", "compute"]},
-                              {"prec": "other", "claims": ["compute", "volume", "rank_ell", "rank_bohm"]}, {"prec": "other", "claims": ["quadratic"]}],
-                    "thorough": [{"prec": "same"}, {"prec": "equal"}, {"prec": "other"}, {"prec": "same", "general": True}]}),
+                              {"prec": "other", "claims": ["compute", "volume", "rank_ell", "rank_bohm"]}, {"prec": "other", "claims": ["quadratic"]},
+                              {"prec": "other", "claims": ["rank_bohm"], "fixed": True}],
+                    "thorough": [{"prec": "same"}, {"prec": "equal"}, {"prec": "other"}, {"prec": "same", "general": True},
+                                 {"prec": "other", "claims": ["rank_bohm", "rank_ell", "compute"], "fixed": True}]}),
     Harness("C16.energy_shear", energy_shear, functions=_F_SE + _F_ELL, opts={"ob_timeout": 40.0, "name_threshold": 10 ** 6, "inv_hook": _exact_inv, "fast_first": False},
             assumptions=["as C16.energy_form but with a symmetric eigenstrain with shear components (case shear), or with the cubic matrix rotated about z and an arbitrary D (case rot)"],
             stubs=["EllipsoidalEnergyDescription.Dijkl: returns the opaque D", "np.linalg.inv(6x6): exact inverse (block diagonal after simplification)"],
